@@ -191,7 +191,12 @@ func (g *gen) txd() TxD {
 func (g *gen) votingIntent() TxD {
 	r := g.r
 	d := g.txd()
-	switch r.Pick(30, 34, 8, 3, 4, 3, 5, 4, 3) {
+	wUnreg, wRet := 3, 3
+	if g.prop == "C28" {
+		// deposit-heavy: candidates come and go, deposits are claimed back at every stage
+		wUnreg, wRet = 12, 14
+	}
+	switch r.Pick(30, 34, 8, wUnreg, 4, wRet, 5, 4, 3) {
 	case 0:
 		d.K, d.F = "reg", r.Pick(70, 10, 10, 10)*4+r.Intn(3)
 		if r.Bool(0.1) {
@@ -231,7 +236,11 @@ func (g *gen) dutyIntent() TxD {
 	if g.prop == "C29" {
 		adv = 22
 	}
-	switch r.Pick(22, 8, 5, 6, 4, 16, 14, 3, 3, 3, adv, 3) {
+	wRet, wReg := 3, 3
+	if g.prop == "C28" {
+		wRet, wReg = 12, 9
+	}
+	switch r.Pick(22, 8, 5, 6, 4, 16, 14, 3, wRet, 3, adv, wReg) {
 	case 0:
 		d.K, d.F = "prop", r.Intn(len(proposalTypes))
 		d.V = []int64{ela, 5 * ela, 40 * ela, 400 * ela, 3}[r.Intn(5)]
